@@ -192,6 +192,61 @@ theorem handleProp_frame (vals : Int → List Nat) (s : State) (p : PropMsg) :
     · exact acceptProp_frame _ p
     · exact ⟨rfl, rfl, [], by simp⟩
 
+/-- The id of the instance's genesis never changes. -/
+theorem insertNode_genesis (s : State) (p : PropMsg) : (insertNode s p).genesis = s.genesis := by
+  unfold insertNode
+  split
+  · rfl
+  · simp only []
+    split
+    · rfl
+    · split <;> rfl
+
+theorem acceptProp_genesis (s : State) (p : PropMsg) : (acceptProp s p).genesis = s.genesis := by
+  unfold acceptProp
+  split
+  · rfl
+  · simp only []
+    split
+    · rfl
+    · split
+      · rfl
+      · split
+        · rfl
+        · exact insertNode_genesis _ p
+
+theorem handleProp_genesis (vals : Int → List Nat) (s : State) (p : PropMsg) :
+    (handleProp vals s p).genesis = s.genesis := by
+  unfold handleProp
+  split
+  · rfl
+  · simp only []
+    split
+    · exact acceptProp_genesis _ p
+    · rfl
+
+theorem handleVote_genesis (vals : Int → List Nat) (s : State) (m : VoteMsg) :
+    (handleVote vals s m).1.genesis = s.genesis := by
+  rcases handleVote_cases vals s m with ⟨hs, _⟩ | ⟨e, rest, nd, _, _, _, _, _, _, _, hst, _⟩
+  · rw [hs]
+  · rw [hst]
+    simp only [collectVote]
+    split <;> split <;> simp [declare]
+
+theorem run_genesis (vals : Int → List Nat) (evs : List Ev) (s : State) : (run vals s evs).genesis = s.genesis := by
+  induction evs generalizing s with
+  | nil => rfl
+  | cons ev evs ih =>
+    cases ev with
+    | vote m =>
+      have := ih (handleVote vals s m).1
+      simp only [run, List.foldl_cons, step] at this ⊢
+      rw [this, handleVote_genesis]
+    | prop p =>
+      have := ih (handleProp vals s p)
+      simp only [run, List.foldl_cons, step] at this ⊢
+      rw [this, handleProp_genesis]
+
 /-! ### the invariant of the vote log, over all histories -/
 
 theorem firstSigs_append (id : Nat) (vs ws : List VoteMsg) :
@@ -210,20 +265,22 @@ theorem mem_firstSigs_last (vs : List VoteMsg) (m : VoteMsg) (e : Entry) (rest :
   apply List.mem_append_right
   simp [firstSigs, h]
 
-/-- Every vote stored for a proposal id arrived as the FIRST signature of a vote message naming that id,
-verifies for it, is not the collector's own, comes from a member of the validator set in force for the
-view of the local proposal, and no member is stored twice. -/
-def LogOk (vals : Int → List Nat) (votes : List VoteMsg) (s : State) : Prop :=
+/-- Every vote stored for a proposal id arrived as the FIRST signature of a vote message naming that id - or
+is one of the entries `base id` the node held for that very id before the history began (nothing after
+`init`; the certificate the ledger carries for the block after a restart) -, verifies for it, is not the
+collector's own, comes from a member of the validator set in force for the view of the local proposal,
+and no member is stored twice. -/
+def LogOk (base : Nat → List Entry) (vals : Int → List Nat) (votes : List VoteMsg) (s : State) : Prop :=
   ∀ id es, logOf s.log id = some es →
     ∃ nd, findNode s.nodes id = some nd ∧ (es.map (·.addr)).Nodup ∧
-      ∀ e ∈ es, e.valid = true ∧ e.addr ≠ s.self ∧ e.addr ∈ vals nd.view ∧ e ∈ firstSigs id votes
+      ∀ e ∈ es, e.valid = true ∧ e.addr ≠ s.self ∧ e.addr ∈ vals nd.view ∧ e ∈ base id ++ firstSigs id votes
 
-theorem logOk_init (vals : Int → List Nat) (self : Nat) : LogOk vals [] (init self) := by
+theorem logOk_init (vals : Int → List Nat) (self : Nat) : LogOk (fun _ => []) vals [] (init self) := by
   intro id es h
   simp [init, logOf] at h
 
-theorem logOk_prop (vals : Int → List Nat) (votes : List VoteMsg) (s : State) (p : PropMsg)
-    (h : LogOk vals votes s) : LogOk vals votes (handleProp vals s p) := by
+theorem logOk_prop (base : Nat → List Entry) (vals : Int → List Nat) (votes : List VoteMsg) (s : State) (p : PropMsg)
+    (h : LogOk base vals votes s) : LogOk base vals votes (handleProp vals s p) := by
   obtain ⟨hlog, hself, l, hnodes⟩ := handleProp_frame vals s p
   intro id es hes
   rw [hlog] at hes
@@ -233,11 +290,11 @@ theorem logOk_prop (vals : Int → List Nat) (votes : List VoteMsg) (s : State) 
   rw [hself]
   exact hall e he
 
-theorem logOk_vote (vals : Int → List Nat) (votes : List VoteMsg) (s : State) (m : VoteMsg)
-    (h : LogOk vals votes s) : LogOk vals (votes ++ [m]) (handleVote vals s m).1 := by
-  have hmono : ∀ id e, e ∈ firstSigs id votes → e ∈ firstSigs id (votes ++ [m]) := by
-    intro id e he; rw [firstSigs_append]; exact List.mem_append_left _ he
-  have hold : LogOk vals (votes ++ [m]) s := by
+theorem logOk_vote (base : Nat → List Entry) (vals : Int → List Nat) (votes : List VoteMsg) (s : State) (m : VoteMsg)
+    (h : LogOk base vals votes s) : LogOk base vals (votes ++ [m]) (handleVote vals s m).1 := by
+  have hmono : ∀ id e, e ∈ base id ++ firstSigs id votes → e ∈ base id ++ firstSigs id (votes ++ [m]) := by
+    intro id e he; rw [firstSigs_append, ← List.append_assoc]; exact List.mem_append_left _ he
+  have hold : LogOk base vals (votes ++ [m]) s := by
     intro id es hes
     obtain ⟨nd, hnd, hnodup, hall⟩ := h id es hes
     exact ⟨nd, hnd, hnodup, fun e he => ⟨(hall e he).1, (hall e he).2.1, (hall e he).2.2.1, hmono id e (hall e he).2.2.2⟩⟩
@@ -293,22 +350,22 @@ theorem logOk_vote (vals : Int → List Nat) (votes : List VoteMsg) (s : State) 
               exact hall x (by simpa [hl] using hx)
           · simp only [List.mem_singleton] at hx
             subst hx
-            exact ⟨hval, hself, by rw [hview]; exact hmem, mem_firstSigs_last votes m x rest hsigs⟩
+            exact ⟨hval, hself, by rw [hview]; exact hmem, List.mem_append_right _ (mem_firstSigs_last votes m x rest hsigs)⟩
       · rw [logOf_setLog_other _ _ _ _ hid] at hes
         exact hold id es hes
 
 /-- The invariant holds after every history of proposal and vote messages. -/
-theorem logOk_run (vals : Int → List Nat) (evs : List Ev) (votes : List VoteMsg) (s : State)
-    (h : LogOk vals votes s) : LogOk vals (votes ++ votesOf evs) (run vals s evs) := by
+theorem logOk_run (base : Nat → List Entry) (vals : Int → List Nat) (evs : List Ev) (votes : List VoteMsg) (s : State)
+    (h : LogOk base vals votes s) : LogOk base vals (votes ++ votesOf evs) (run vals s evs) := by
   induction evs generalizing votes s with
   | nil => simpa [run, votesOf] using h
   | cons ev evs ih =>
     cases ev with
     | vote m =>
-      have := ih (votes ++ [m]) (handleVote vals s m).1 (logOk_vote vals votes s m h)
+      have := ih (votes ++ [m]) (handleVote vals s m).1 (logOk_vote base vals votes s m h)
       simpa [run, votesOf, step, List.append_assoc] using this
     | prop p =>
-      have := ih votes (handleProp vals s p) (logOk_prop vals votes s p h)
+      have := ih votes (handleProp vals s p) (logOk_prop base vals votes s p h)
       simpa [run, votesOf, step] using this
 
 theorem run_self (vals : Int → List Nat) (evs : List Ev) (s : State) : (run vals s evs).self = s.self := by
@@ -339,21 +396,56 @@ theorem mem_validMembersBut (c : Nat) (vals : List Nat) (es : List Entry) (e : E
   refine ⟨List.mem_map.mpr ⟨e, List.mem_filter.mpr ⟨he, by simp [hm, hv]⟩, rfl⟩, by simpa using hc⟩
 
 /-- A log that satisfies the invariant has at most as many entries as there are distinct members,
-besides the collector, with a valid vote among the arrived votes. -/
-theorem log_le_supporters (vals : Int → List Nat) (votes : List VoteMsg) (s : State) (id : Nat)
-    (es : List Entry) (nd : Node) (h : LogOk vals votes s) (hes : logOf s.log id = some es)
+besides the collector, with a valid vote among the arrived votes and the entries held for the id before. -/
+theorem log_le_supporters (base : Nat → List Entry) (vals : Int → List Nat) (votes : List VoteMsg) (s : State) (id : Nat)
+    (es : List Entry) (nd : Node) (h : LogOk base vals votes s) (hes : logOf s.log id = some es)
     (hnd : findNode s.nodes id = some nd) :
-    es.length ≤ (validMembersBut s.self (vals nd.view) (firstSigs id votes)).length := by
+    es.length ≤ (validMembersBut s.self (vals nd.view) (base id ++ firstSigs id votes)).length := by
   obtain ⟨nd', hnd', hnodup, hall⟩ := h id es hes
   have : nd' = nd := by rw [hnd] at hnd'; exact (Option.some.inj hnd').symm
   subst this
-  have := List.Nodup.length_le_of_subset hnodup (l₂ := validMembersBut s.self (vals nd'.view) (firstSigs id votes)) (by
+  have := List.Nodup.length_le_of_subset hnodup (l₂ := validMembersBut s.self (vals nd'.view) (base id ++ firstSigs id votes)) (by
     intro a ha
     obtain ⟨e, he, hea⟩ := List.mem_map.mp ha
     subst hea
     obtain ⟨h1, h2, h3, h4⟩ := hall e he
     exact mem_validMembersBut _ _ _ e h4 h1 h3 h2)
   simpa using this
+
+/-- **Collection-side C14, from any state whose vote log satisfies the invariant** (the state after `init`,
+the state after a restart on a ledger).  After ANY history of proposal and vote messages, a vote message
+makes the collector declare a quorum (advance its view / move HighQC) only if the proposal it names is in the
+local tree under the view the vote declares and valid signatures over that id - arrived as first signature of
+a vote message naming it, or held for that very id before the history began - come from at least
+`n - ⌊(n-1)/3⌋ - 1` distinct members, besides the collector, of the validator set in force for the view of that
+local proposal. -/
+theorem declared_quorum_from (base : Nat → List Entry) (vals : Int → List Nat) (s0 : State)
+    (hs0 : LogOk base vals [] s0) (evs : List Ev) (m : VoteMsg)
+    (h : (handleVote vals (run vals s0 evs) m).2.2 = true) :
+    ∃ nd, lookup (run vals s0 evs) m.id = some nd ∧ nd.view = m.view ∧
+      quorum (vals nd.view).length ≤
+        (validMembersBut s0.self (vals nd.view) (base m.id ++ firstSigs m.id (votesOf evs ++ [m]))).length := by
+  have hinv := logOk_run base vals evs [] s0 hs0
+  simp only [List.nil_append] at hinv
+  have hinv' := logOk_vote base vals (votesOf evs) _ m hinv
+  rcases handleVote_cases vals (run vals s0 evs) m with ⟨_, hf⟩ | ⟨e, rest, nd, _, hmem, _, _, hnd, hview, _, hst, hfl⟩
+  · rw [hf] at h; exact absurd h (by simp)
+  · refine ⟨nd, hnd, hview, ?_⟩
+    rw [hfl] at h
+    obtain ⟨es, hes, _, hthr⟩ := collectVote_declared _ _ _ _ _ _ h
+    rw [← hst] at hes
+    have hfn : findNode (handleVote vals (run vals s0 evs) m).1.nodes m.id = some nd := by
+      rw [hst, (collectVote_frame _ _ _ _ _ _).1]; exact lookup_findNode _ _ _ hnd
+    have hle := log_le_supporters base vals _ _ m.id es nd hinv' hes hfn
+    have hself : (handleVote vals (run vals s0 evs) m).1.self = s0.self := by
+      rw [hst, (collectVote_frame _ _ _ _ _ _).2.1, run_self]
+    rw [hself] at hle
+    have hn : 1 ≤ (vals nd.view).length := by
+      rw [hview]; exact List.length_pos_of_mem hmem
+    rw [← hview] at hthr
+    have := (XV.C14.threshold_value es.length (vals nd.view).length hn).mp hthr
+    unfold quorum
+    omega
 
 /-- **Collection-side C14.**  After ANY history of proposal and vote messages, a vote message makes the
 collector declare a quorum (advance its view / move HighQC) only if the proposal it names is in the local
@@ -365,27 +457,7 @@ theorem declared_quorum_is_genuine (vals : Int → List Nat) (self : Nat) (evs :
     ∃ nd, lookup (run vals (init self) evs) m.id = some nd ∧ nd.view = m.view ∧
       quorum (vals nd.view).length ≤
         (validMembersBut self (vals nd.view) (firstSigs m.id (votesOf evs ++ [m]))).length := by
-  have hinv := logOk_run vals evs [] (init self) (logOk_init vals self)
-  simp only [List.nil_append] at hinv
-  have hinv' := logOk_vote vals (votesOf evs) _ m hinv
-  rcases handleVote_cases vals (run vals (init self) evs) m with ⟨_, hf⟩ | ⟨e, rest, nd, _, hmem, _, _, hnd, hview, _, hst, hfl⟩
-  · rw [hf] at h; exact absurd h (by simp)
-  · refine ⟨nd, hnd, hview, ?_⟩
-    rw [hfl] at h
-    obtain ⟨es, hes, _, hthr⟩ := collectVote_declared _ _ _ _ _ _ h
-    rw [← hst] at hes
-    have hfn : findNode (handleVote vals (run vals (init self) evs) m).1.nodes m.id = some nd := by
-      rw [hst, (collectVote_frame _ _ _ _ _ _).1]; exact lookup_findNode _ _ _ hnd
-    have hle := log_le_supporters vals _ _ m.id es nd hinv' hes hfn
-    have hself : (handleVote vals (run vals (init self) evs) m).1.self = self := by
-      rw [hst, (collectVote_frame _ _ _ _ _ _).2.1, run_self]; rfl
-    rw [hself] at hle
-    have hn : 1 ≤ (vals nd.view).length := by
-      rw [hview]; exact List.length_pos_of_mem hmem
-    rw [← hview] at hthr
-    have := (XV.C14.threshold_value es.length (vals nd.view).length hn).mp hthr
-    unfold quorum
-    omega
+  simpa [init] using declared_quorum_from (fun _ => []) vals (init self) (logOk_init vals self) evs m h
 
 /-- The storing half moves HighQC and the view exactly when it declares the quorum. -/
 theorem collectVote_effect (n : Nat) (s : State) (id : Nat) (dview : Int) (e : Entry) (nd : Node) :
@@ -555,9 +627,9 @@ theorem declared_certificate_accepted (vals : Int → List Nat) (self : Nat) (ev
       logOf (handleVote vals (run vals (init self) evs) m).1.log m.id = some es ∧
       checkProposal (vals nd.view) es = .accept ∧ (∀ e ∈ es, e.addr ≠ self) ∧
       quorum (vals nd.view).length ≤ (validMembersBut self (vals nd.view) es).length := by
-  have hinv := logOk_run vals evs [] (init self) (logOk_init vals self)
+  have hinv := logOk_run (fun _ => []) vals evs [] (init self) (logOk_init vals self)
   simp only [List.nil_append] at hinv
-  have hinv' := logOk_vote vals (votesOf evs) _ m hinv
+  have hinv' := logOk_vote (fun _ => []) vals (votesOf evs) _ m hinv
   rcases handleVote_cases vals (run vals (init self) evs) m with ⟨_, hf⟩ | ⟨e, rest, nd, _, hmem, _, _, hnd, hview, _, hst, hfl⟩
   · rw [hf] at h; exact absurd h (by simp)
   · rw [hfl] at h
@@ -586,10 +658,13 @@ theorem declared_certificate_accepted (vals : Int → List Nat) (self : Nat) (ev
 /-- What the node puts into its next proposal message (`ProcessProposal` → `reloadJustifyQC`) and what
 `GetCompleteHighQC` answers are the same votes: the log stored for HighQC. -/
 theorem nextJustify_is_cert (s : State) (id : Nat) (es : List Entry) (h : nextJustify s = some (id, es))
-    (hid : id ≠ 0) : cert s = (id, es) := by
+    (hid : id ≠ s.genesis) : cert s = (id, es) := by
   unfold nextJustify at h
   split at h
-  · simp only [Option.some.injEq, Prod.mk.injEq] at h; exact absurd h.1.symm hid
+  · rename_i hg
+    simp only [Option.some.injEq, Prod.mk.injEq] at h
+    have hg' : s.high.id = s.genesis := by simpa using hg
+    exact absurd (h.1 ▸ hg') hid
   · cases hl : logOf s.log s.high.id with
     | none => simp [hl] at h
     | some es' =>
@@ -611,8 +686,10 @@ theorem declared_next_proposal_carries_quorum (vals : Int → List Nat) (self : 
       quorum (vals nd.view).length ≤ (validMembersBut self (vals nd.view) es).length := by
   obtain ⟨nd, es, hnd, hes, hacc, _, hq⟩ := declared_certificate_accepted vals self evs m h
   refine ⟨nd, es, hnd, ?_, hacc, hq⟩
+  have hg : (handleVote vals (run vals (init self) evs) m).1.genesis = 0 := by
+    rw [handleVote_genesis, run_genesis]; rfl
   unfold nextJustify
-  rw [hmove]
+  rw [hmove, hg]
   have : (m.id == 0) = false := by simpa using hid
   simp [this, hes]
 
@@ -698,7 +775,7 @@ HighQC nowhere but to that proposal, and only if the justify declares that propo
 accepted by `CheckProposal` against the validator set in force for that view (the view of the LOCAL
 proposal, not a view the unsigned justify header chooses). -/
 theorem justify_checked_against_true_view (vals : Int → List Nat) (s : State) (p : PropMsg) (nd : Node)
-    (hp : p.parent ≠ 0) (hnd : lookup s p.parent = some nd) (hmove : (handleProp vals s p).high ≠ s.high) :
+    (hp : p.parent ≠ s.genesis) (hnd : lookup s p.parent = some nd) (hmove : (handleProp vals s p).high ≠ s.high) :
     (handleProp vals s p).high = nd ∧ nd.view = p.pview ∧ checkProposal (vals nd.view) p.just = .accept := by
   unfold handleProp at hmove ⊢
   split at hmove
@@ -712,7 +789,7 @@ theorem justify_checked_against_true_view (vals : Int → List Nat) (s : State) 
       rw [if_neg hk, if_pos hj]
       have hj' := hj
       unfold justifyOk at hj'
-      have hp' : (p.parent == 0) = false := by simpa using hp
+      have hp' : (p.parent == ({ s with known := p.id :: s.known } : State).genesis) = false := by simpa using hp
       rw [hp', hnd1] at hj'
       simp only [Bool.false_eq_true, ↓reduceIte] at hj'
       split at hj'
@@ -731,7 +808,7 @@ theorem justify_checked_against_true_view (vals : Int → List Nat) (s : State) 
 
 /-- `justify_checked_against_true_view`, stated for the proposal handler as it was found. -/
 def justify_checked_against_true_view_as_found_statement : Prop :=
-  ∀ (vals : Int → List Nat) (s : State) (p : PropMsg) (nd : Node), p.parent ≠ 0 → lookup s p.parent = some nd →
+  ∀ (vals : Int → List Nat) (s : State) (p : PropMsg) (nd : Node), p.parent ≠ s.genesis → lookup s p.parent = some nd →
     (handlePropAsFound vals s p).high ≠ s.high → checkProposal (vals nd.view) p.just = .accept
 
 /-! ### the code as found: three defects of the vote handler, refuted statements -/
